@@ -128,7 +128,7 @@ Definition ctx_e : submit_ctx :=
      sc_batch_script := "/c/slurm_scripts/uid/batchscript_uid.sh" |}.
 Definition sched_ok : scheduler :=
   {| sb_rc := 0; sb_stdout := "Submitted batch job 123"; s_squeue := [{| sq_stdout := ""; sq_stderr := "" |}];
-     s_sacct := [SaLine "COMPLETED" 0]; s_errfile := None |}.
+     s_sacct := ["123    COMPLETED    0:0"]; s_errfile := None |}.
 
 Theorem pinned_refuted_user_error_option :
   slurm_run_pinned sl0 ctx_e sched_ok = (["-e"; "/tmp/my-%j.err"; "--job-name=add.uid"; "--output=/c/slurm_scripts/uid/slurm-%j.out";
@@ -299,3 +299,104 @@ Definition options_statement : Prop :=
 
 Theorem refuted_option_form : ~ options_statement.
 Proof. intros H. specialize (H ["--job-name"; "myname"] eq_refl eq_refl). vm_compute in H. discriminate. Qed.
+
+(* ================================================================== accounting text *)
+Lemma span_app p a b : forallb p a = true -> match b with [] => True | c :: _ => p c = false end ->
+  span p (a ++ b) = (a, b).
+Proof.
+  induction a as [|x a IH]; intros Ha Hb; cbn.
+  - destruct b as [|c b]; [reflexivity|]. cbn. now rewrite Hb.
+  - cbn in Ha. apply andb_true_iff in Ha. destruct Ha as [Hx Ha]. rewrite Hx. now rewrite IH.
+Qed.
+
+Lemma forallb_repeat_sp n : forallb is_sp (repeat " "%char n) = true.
+Proof. induction n; cbn; auto. Qed.
+
+Lemma sacct_search_head l r : match_at l = Some r -> sacct_search l = Some r.
+Proof. intros H. destruct l; cbn [sacct_search]; now rewrite H. Qed.
+
+Lemma digit_not_sp c : is_digit c = true -> is_sp c = false.
+Proof.
+  unfold is_digit, is_sp. intros H. destruct (Ascii.eqb c " ") eqn:E; [|reflexivity].
+  apply Ascii.eqb_eq in E. subst c. discriminate H.
+Qed.
+Lemma word_not_sp c : is_word c = true -> is_sp c = false.
+Proof.
+  unfold is_sp. intros H. destruct (Ascii.eqb c " ") eqn:E; [|reflexivity].
+  apply Ascii.eqb_eq in E. subst c. discriminate H.
+Qed.
+
+Lemma match_rendered l : wf_line l = true ->
+  match_at (la_of (render_line l)) = Some (al_state l, al_code l).
+Proof.
+  unfold wf_line. rewrite !andb_true_iff. intros [[[[[[Hj Hw] Hwn] Hc] Hcn] Hs] Hsn].
+  unfold render_line. rewrite la_of_str_of. unfold match_at.
+  destruct (al_state l) as [|w0 w] eqn:Ew; [discriminate Hwn|]. rewrite <- Ew in *.
+  destruct (al_code l) as [|c0 c] eqn:Ec; [discriminate Hcn|]. rewrite <- Ec in *.
+  destruct (al_sig l) as [|s0 s] eqn:Es; [discriminate Hsn|].
+  assert (Hw0 : is_word w0 = true) by (rewrite Ew in Hw; cbn in Hw; apply andb_true_iff in Hw; tauto).
+  assert (Hc0 : is_digit c0 = true) by (rewrite Ec in Hc; cbn in Hc; apply andb_true_iff in Hc; tauto).
+  assert (Hs0 : is_digit s0 = true) by (cbn in Hs; apply andb_true_iff in Hs; tauto).
+  (* job id *)
+  rewrite (span_app is_digit (al_jobid l)) by (auto; cbn; reflexivity).
+  (* first blanks *)
+  rewrite (span_app is_sp (repeat " "%char (S (al_pad1 l)))) by
+    (auto using forallb_repeat_sp; rewrite Ew; cbn; now apply word_not_sp).
+  cbn [repeat]. 
+  (* the state word *)
+  rewrite (span_app is_word (al_state l)) by
+    (auto; destruct (al_plus l); cbn; reflexivity).
+  (* optional plus, second blanks, exit code *)
+  assert (HA : after_status (" "%char :: repeat " "%char (al_pad2 l) ++ al_code l ++ ":"%char :: (s0 :: s) ++ al_rest l) = Some (al_code l)).
+  { change (" "%char :: repeat " "%char (al_pad2 l) ++ al_code l ++ ":"%char :: (s0 :: s) ++ al_rest l)
+      with (repeat " "%char (S (al_pad2 l)) ++ al_code l ++ ":"%char :: (s0 :: s) ++ al_rest l).
+    unfold after_status.
+    rewrite (span_app is_sp (repeat " "%char (S (al_pad2 l)))) by
+      (auto using forallb_repeat_sp; rewrite Ec; cbn; now apply digit_not_sp).
+    cbn [repeat]. unfold exit_code_at. rewrite (span_app is_digit (al_code l)) by (auto; cbn; reflexivity).
+    rewrite Ec at 1. cbn [app]. rewrite Hs0. cbn. now rewrite Ec. }
+  cbn [app] in HA. destruct (al_plus l); cbn [app].
+  - rewrite Ascii.eqb_refl. rewrite HA. reflexivity.
+  - change (Ascii.eqb " " "+") with false. cbn iota. rewrite HA. reflexivity.
+Qed.
+
+Theorem parse_rendered l : wf_line l = true -> parse_sacct (render_line l) = ans_of (Some l).
+Proof.
+  intros H. unfold parse_sacct. 
+  assert (String.eqb (render_line l) "" = false) as ->.
+  { unfold render_line. destruct (al_jobid l); cbn; reflexivity. }
+  rewrite (sacct_search_head _ _ (match_rendered l H)). reflexivity.
+Qed.
+
+Lemma parse_answers answers : forallb (fun a => match a with None => true | Some l => wf_line l end) answers = true ->
+  map parse_sacct (map render_ans answers) = map ans_of answers.
+Proof.
+  intros H. rewrite map_map. apply map_ext_in. intros [l|] Hin; [|reflexivity].
+  rewrite forallb_forall in H. specialize (H _ Hin). cbn [render_ans]. now apply parse_rendered.
+Qed.
+
+(* the verdict theorem on raw scheduler text *)
+Theorem verdict_raw : forall sl st, lists_agree sl st ->
+  forall errfile sq answers,
+    forallb (fun a => match a with None => true | Some l => wf_line l end) answers = true ->
+    let '(v, t) := poll_loop sl false errfile sq (map parse_sacct (map render_ans answers)) in
+    (outcome_of v, count_requeues t) = decide true (reports st sq (map ans_of answers)).
+Proof.
+  intros sl st HL errfile sq answers Hwf. rewrite parse_answers by exact Hwf.
+  apply (verdict_requeue sl st HL errfile sq (map ans_of answers)).
+Qed.
+
+(* an untruncated "CANCELLED by <uid>" is read as status <uid>: the job is reported failed, not requeued *)
+Theorem refuted_cancelled_by :
+  parse_sacct "123  CANCELLED by 1000  0:0" = SaLine "1000" 0 /\
+  fst (poll_loop sl0 false (Some ["x"; "Exception: boom"; ""]) [{| sq_stdout := ""; sq_stderr := "" |}]
+                 [parse_sacct "123  CANCELLED by 1000  0:0"]) = Failed "boom" /\
+  classify st0 (SaLine "CANCELLED" 0) = Interrupted.
+Proof. vm_compute. auto. Qed.
+
+Example parse_examples :
+  parse_sacct "123          CANCELLED+      0:0 " = SaLine "CANCELLED" 0 /\
+  parse_sacct "123  COMPLETED  0:0  extra 1:2" = SaLine "COMPLETED" 0 /\
+  parse_sacct "123  OUT_OF_ME+  125:0" = SaLine "OUT_OF_ME" 125 /\
+  parse_sacct "" = SaNone /\ parse_sacct "sacct: error" = SaGarbage.
+Proof. vm_compute. auto. Qed.
